@@ -80,6 +80,12 @@ Print Assumptions C04_quic_id.
 Theorem C04_quic_id_exact : forall id, is_grease_id id = true <-> exists n, id = 31 * n + 27.
 Proof. exact is_grease_id_spec. Qed.
 
+(* in particular no id below 27 is a GREASE id (the guard `id >= 27` of IsGREASEID matters: without it the
+   unsigned subtraction wraps and 11 would pass, since 2^64 = 16 mod 31) *)
+Theorem C04_quic_id_small : forall id, id < 27 -> is_grease_id id = false.
+Proof. exact is_grease_id_small. Qed.
+Print Assumptions C04_quic_id_small.
+
 Theorem C04_quic_tp_id : forall o d, (forall k, d = Some k -> k < GREASE_MAX_MULTIPLIER) ->
   is_grease_id (tp_grease_id o d) = true.
 Proof. exact tp_grease_id_ok. Qed.
